@@ -6,6 +6,8 @@ CONSTANTS
  MaxSeg = 3
  MaxOps = 10
  MaxHist = 0
+ Groups = {1}
+ Snapshots = FALSE
 VIEW view
 INVARIANT RemovalSafe
 INVARIANT LsmDurable
